@@ -1,8 +1,8 @@
 """C06 - unrepresentable operands are rejected, never truncated; legal ones accepted."""
-from ..core import Report, Finding
+from ..core import Report, Finding, AnalysisError
 from ..facts import Facts
 from .. import oracle, encprops
-from ..encsum import all_summaries
+from ..encsum import all_summaries, summary_of
 
 LEVEL = 'proof'
 
@@ -52,22 +52,43 @@ def run(repo, tier):
     rep.not_decided = ['acceptance through the text front end of operands that are expressions (C11)']
     m32 = encprops.check_tables(rep, facts, 'R6.tables', oracle.RV32, compressed=False)
     m16 = encprops.check_tables(rep, facts, 'R6.tables', oracle.RVC, compressed=True)
-    encprops.check_acceptance(rep, facts, m32 + m16, 'R6.accepted-set')
-    encprops.check_mask_guard(rep, facts, m32 + m16, 'R6.mask-after-guard')
+    at = encprops.attempt
+    at(rep, encprops.check_acceptance, rep, facts, m32 + m16, 'R6.accepted-set')
+    at(rep, encprops.check_mask_guard, rep, facts, m32 + m16, 'R6.mask-after-guard')
     # refusal is a raise on a path that never reaches the return: true by construction of the interpreter (a raise
     # kills the abstract path); count the refusal sites that were seen
     sums = all_summaries(facts)
     sites = set()
     for m in m32 + m16:
-        for r in sums[m].raises:
+        s_ = summary_of(rep, sums, m)
+        for r in (s_.raises if s_ is not None else ()):
             sites.add((r['fn'], r['node'].lineno))
     rep.analysed['refusal sites reached'] = len(sites)
-    encprops.check_registers(rep, facts, 'R6.registers')
-    check_bake_identity(rep, facts, 'R6.bake-identity')
+    at(rep, encprops.check_registers, rep, facts, 'R6.registers')
+    # text front end: an operand token of an accepted line may not be silently ignored (c.lwsp x1, 8(x9) must not assemble as sp-relative)
+    at(rep, encprops.check_ignored_tokens, rep, facts, 'R6.ignored-operand')
+    at(rep, check_bake_identity, rep, facts, 'R6.bake-identity')
+    # an operand is the integer its expression evaluates to: an expression whose value is not an integer (7/2, 2047.9) is
+    # unrepresentable and has to be refused, not rounded into range (the rule itself lives with C11)
+    from .c11 import check_integer_results
+    scratch = Report('C06', LEVEL, '')
+    und_ = []
+    try:
+        check_integer_results(scratch, facts, und_)
+    except AnalysisError as e:
+        und_.append(str(e))
+    for f in scratch.findings:
+        f.rule = 'R6.integer-operand'
+        rep.fail(f, instance='operand expressions evaluate to exact integers or are refused')
+    if not scratch.findings:
+        if und_:
+            rep.undecided(und_[0])
+        else:
+            rep.ok('R6.integer-operand', 'operand expressions evaluate to exact integers or are refused')
     # an operand that a compression rule drops never reaches an encoder: the rule itself has to pin it to the one value the
     # compressed form stands for, or an out-of-range operand (addi x0, x0, 5000 -> c.nop) is accepted under -c
     from ..comprel import CompRel, check_final_immediates
-    check_final_immediates(rep, CompRel(facts), 'R6.dropped-operand')
+    at(rep, lambda: check_final_immediates(rep, CompRel(facts), 'R6.dropped-operand'))
     rep.floor('immediate baking sites', 1)
     rep.floor('mnemonic bindings', 93)
     rep.floor('refusal sites reached', 30)
